@@ -596,6 +596,10 @@ MUTANTS = [
     M("L1-2-hash-by-rank-index", ["C01", "C07"], (MH, "        suit_hashes[suit_index] += 1 << (12 - u8::from(card.rank()));", "        suit_hashes[(suit_index + 1) % 4] += 1 << (12 - u8::from(card.rank()));"), base="L1-2"),
     M("benign-I1-4-fused-flush-match", ["C01", "C07", "C08"], base="I1-4", benign=True),
     M("I1-4-weight-swapped", ["C01", "C07"], (MH, "            Rank::King => 0b100000000000,\n            Rank::Queen => 0b10000000000,", "            Rank::King => 0b10000000000,\n            Rank::Queen => 0b100000000000,"), base="I1-4"),
+    M("benign-L1-3-lazy-rank-walk", ["C01", "C07", "C08"], base="L1-3", benign=True),
+    M("L1-3-no-decrement", ["C01", "C07"], (MH, "            remaining_card_len -= len;\n", ""), base="L1-3"),
+    M("L1-3-filter-off", ["C01", "C07"], (MH, ".filter(|&(_, len)| len > 0)", ".filter(|&(_, len)| len > 1)"), base="L1-3"),
+    M("L1-3-decrement-first", ["C01", "C07"], (MH, "            let offset = dp_ref(len, rank, remaining_card_len);\n", "            remaining_card_len -= len;\n            let offset = dp_ref(len, rank, remaining_card_len);\n            remaining_card_len += len;\n"), base="L1-3"),
     M("benign-F3-3-computed-flush-weight", ["C01", "C07", "C08"], base="F3-3", benign=True),
     M("F3-3-unreversed", ["C01", "C07"], (MH, "1 << (12 - u8::from(card.rank()))", "1 << u8::from(card.rank())"), base="F3-3"),
     M("F3-3-off-by-one", ["C01", "C07"], (MH, "1 << (12 - u8::from(card.rank()))", "1 << (13 - u8::from(card.rank()))"), base="F3-3"),
